@@ -34,8 +34,16 @@
 (*               sequence below are the training rows, in training order   *)
 (*   o.nAll      nTrain + number of extra query rows (rows nTrain+1..nAll  *)
 (*               are rows the forest has never seen)                       *)
-(*   o.y         training labels (cls: the original label values, exact    *)
-(*               integers) or targets (reg: fixed point, round(v * 2^16))  *)
+(*   o.y         training labels or targets.  cls: the label values are    *)
+(*               arbitrary floats (closer than machine epsilon, non-       *)
+(*               integers, huge, -0.0 next to 0.0 ...); every classifier   *)
+(*               value of the observation -- labels, member-tree           *)
+(*               predictions, forest and OOB predictions -- is recorded as *)
+(*               an order-preserving code: its dense rank among all finite *)
+(*               values of the observation under numeric equality.  Two    *)
+(*               entries are the same integer iff the values are equal.    *)
+(*               (Assembled forests use small integer labels verbatim.)    *)
+(*               reg: fixed point, round(v * 2^16)                         *)
 (*   o.ySlack    uncertainty of the recorded targets in fixed-point units: *)
 (*               0 when every target is dyadic (o.y exact), 1 when the     *)
 (*               targets are arbitrary reals (o.y rounded); 0 for "cls"    *)
@@ -369,6 +377,12 @@ ForestOK(o, fitted, unlimitedDistinct) == FirstFail(o, fitted, unlimitedDistinct
 (* every interleaving of keys; ForestTrace.tla applies the same two        *)
 (* operators to the recorded fits.                                         *)
 (***************************************************************************)
+\* "... are identical": the library's own equality must agree.  eqSelf is the observed value
+\* of `forest == forest` for a freshly fitted forest, eqRefit of `forest == forest2` for a
+\* second forest fitted with the same data, parameters and seed (PartialEq of the forests,
+\* which descends into the member trees and their nodes).
+EqualFits(eqSelf, eqRefit) == eqSelf /\ eqRefit
+
 FitGuard(seen, key, digest) == key \in DOMAIN seen => seen[key] = digest
 
 FitEffect(seen, key, digest) == IF key \in DOMAIN seen THEN seen ELSE (key :> digest) @@ seen
